@@ -68,6 +68,10 @@ type c07Outcome struct {
 	Txs      []string `json:"tx_results"`
 	Updates  []string `json:"validator_updates_sorted"`
 	Calls    []string `json:"engine_calls"`
+	FinCalls []string `json:"engine_calls_during_finalize_block"`
+	// PartialLog: this replica did not run ProcessProposal in the process that finalised the block
+	// (replay after a crash, block sync), so only the FinalizeBlock part of the log is comparable
+	PartialLog bool `json:"partial_engine_log,omitempty"`
 	Dump     string   `json:"store_dump"`
 	NextHash string   `json:"next_block_app_hash,omitempty"`
 	Err      string   `json:"error,omitempty"`
@@ -94,8 +98,11 @@ func (o c07Outcome) diff(p c07Outcome) string {
 	if fmt.Sprint(o.Updates) != fmt.Sprint(p.Updates) {
 		d = append(d, "validator updates")
 	}
-	if fmt.Sprint(o.Calls) != fmt.Sprint(p.Calls) {
+	if !o.PartialLog && !p.PartialLog && fmt.Sprint(o.Calls) != fmt.Sprint(p.Calls) {
 		d = append(d, "engine calls")
+	}
+	if fmt.Sprint(o.FinCalls) != fmt.Sprint(p.FinCalls) {
+		d = append(d, fmt.Sprintf("engine calls during FinalizeBlock %v vs %v", o.FinCalls, p.FinCalls))
 	}
 	if o.Dump != p.Dump {
 		d = append(d, "store dump")
@@ -139,10 +146,28 @@ func c07Exec(w *enga.World, blk *sim.Block, txs [][]byte, mode string) c07Outcom
 			return c07Outcome{Err: fmt.Sprintf("process (2nd round): %v %v", pr, err)}
 		}
 	}
+	partial := false
+	switch mode {
+	case "restart-between-process-and-finalize":
+		// the process that finalises the block never saw its proposal: a restart after the
+		// proposal was accepted, CometBFT replaying a decided block, a node catching up
+		if err := n.Restart(); err != nil {
+			return fail("restart", err)
+		}
+		partial = true
+	}
+	preFin := len(n.EL.Calls())
 	fr, err := n.Finalize(&b, txs)
 	if err != nil {
 		return fail("finalize", err)
 	}
+	finCalls := func() (out []string) {
+		for _, c := range n.EL.Calls()[preFin:] {
+			out = append(out, c.Method+":"+c.Digest)
+		}
+		return
+	}
+	fin := finCalls()
 	switch mode {
 	case "restart-before-commit":
 		if err := n.Restart(); err != nil {
@@ -152,11 +177,14 @@ func c07Exec(w *enga.World, blk *sim.Block, txs [][]byte, mode string) c07Outcom
 		if _, err := n.Process(&b, txs); err != nil {
 			return fail("process-after-restart", err)
 		}
+		preFin = len(n.EL.Calls())
 		if fr, err = n.Finalize(&b, txs); err != nil {
 			return fail("finalize-after-restart", err)
 		}
+		fin = finCalls()
 	}
 	o := c07FinalizeOutcome(fr)
+	o.FinCalls, o.PartialLog = fin, partial
 	for _, c := range n.EL.Calls() {
 		o.Calls = append(o.Calls, c.Method+":"+c.Digest)
 	}
@@ -388,7 +416,7 @@ func C07Worker(scName string, idx, n int, thorough bool) {
 }
 
 func runC07(r *mc.Run) {
-	r.Rule = "for each scenario block (adversarial lock batches naming unknown validators/tokens, several validators leaving at once, relayer transactions that succeed and fail, downtime+evidence, hand-over, election) the same transactions are executed on: a base replica; a replica on which the proposal is processed in two rounds before it is finalised; a replica restarted (new App on the same DB) between FinalizeBlock and Commit; one restarted after Commit; the long-running process that executed the whole setup history itself; replicas with the wall clock shifted by +-400 days against the real clock and set to block time +10 s / +400 d / -400 d (incl. blocks carrying evidence that is old in blocks but young in time, and old in both); and, for every map iteration of the FinalizeBlock goroutine, every combination of starts at range sites inside goat packages and every single deviation at sites in dependencies (runtime hook, instrumented build); in addition every history of a depth-2 (thorough: 3) tree over a 21-block menu is executed block by block on fresh application instances and once more on one instance living through the whole history (twin histories); oracle = equal app hash, tx codes/codespaces/gas/data, validator-update set, engine call log, store dump and next-block app hash"
+	r.Rule = "for each scenario block (adversarial lock batches naming unknown validators/tokens, several validators leaving at once, relayer transactions that succeed and fail, downtime+evidence, hand-over, election) the same transactions are executed on: a base replica; a replica on which the proposal is processed in two rounds before it is finalised; a replica restarted after the proposal was accepted and before FinalizeBlock (as after a crash, replay or catch-up: the finalising process never saw the proposal; engine calls during FinalizeBlock are compared); a replica restarted (new App on the same DB) between FinalizeBlock and Commit; one restarted after Commit; the long-running process that executed the whole setup history itself; replicas with the wall clock shifted by +-400 days against the real clock and set to block time +10 s / +400 d / -400 d (incl. blocks carrying evidence that is old in blocks but young in time, and old in both); and, for every map iteration of the FinalizeBlock goroutine, every combination of starts at range sites inside goat packages and every single deviation at sites in dependencies (runtime hook, instrumented build); in addition every history of a depth-2 (thorough: 3) tree over a 21-block menu is executed block by block on fresh application instances and once more on one instance living through the whole history (twin histories); oracle = equal app hash, tx codes/codespaces/gas/data, validator-update set, engine call log, store dump and next-block app hash"
 	r.Assumptions = []string{"torn writes inside the SDK's Commit are out of scope", "in dependencies one map deviation per execution is explored (thorough: also every pair of sites moved to their next start)"}
 	scs := c07Scenarios(r.Thorough())
 	self, err := os.Executable()
@@ -426,7 +454,7 @@ func runC07(r *mc.Run) {
 			}
 		}
 		r.Outcome(fmt.Sprintf("scenario:%s:%d-of-%d-txs-ok", sc.Name, okTx, len(base.Txs)))
-		for _, mode := range []string{"plain", "second-proposal-round", "restart-before-commit", "restart-after-commit"} {
+		for _, mode := range []string{"plain", "second-proposal-round", "restart-between-process-and-finalize", "restart-before-commit", "restart-after-commit"} {
 			o := run(mode)
 			if d := base.diff(o); d != "" {
 				r.Violate(mc.Violation{Class: "replica-diverges:" + mode, Msg: fmt.Sprintf("scenario %s: %s", sc.Name, d), Detail: map[string]any{"scenario": sc, "mode": mode}}, nil)
